@@ -651,5 +651,169 @@ func main() {
 		pln("].")
 
 	})
+	section("Definition go_mutating_calls : list (string * string * string * string * string) := [(\"<unrecognised>\", \"Evaluate\", \"\", \"\", \"shared\")].\n", func() {
+		// every call that can write through its target - the builtins append/copy/delete, reflect.Append/AppendSlice/Copy, sort.*,
+		// and methods whose name says so (Set*, Store, Swap, CompareAndSwap, Add, Delete, LoadOrStore, LoadAndDelete, Put, Lock, Unlock,
+		// RLock, RUnlock, Do, Send, Clear, Grow, Reset, Truncate, Write*) - as (file, function, callee, target, class):
+		//   "fresh":  the target is a container the function made itself: make(...), a composite literal, T(nil), a nil `var x []T`,
+		//             reflect.MakeSlice/MakeMap/MakeMapWithSize/New, x.MapKeys(), append / reflect.Append of a fresh container,
+		//             or the function's own by-value struct (var b strings.Builder);
+		//   "shared": anything else (parameters, fields, results of other calls).
+		pln("(* (file, function, callee, target, class) of every call that can write through its target *)")
+		pln("Definition go_mutating_calls : list (string * string * string * string * string) := [")
+		var lines []string
+		mutMethod := func(n string) bool {
+			if strings.HasPrefix(n, "Set") || strings.HasPrefix(n, "Write") {
+				return true
+			}
+			switch n {
+			case "Store", "Swap", "CompareAndSwap", "Add", "Delete", "LoadOrStore", "LoadAndDelete", "Put", "Lock", "Unlock", "RLock", "RUnlock", "Do", "Send", "Clear", "Grow", "Reset", "Truncate":
+				return true
+			}
+			return false
+		}
+		makers := map[string]bool{"reflect.MakeSlice": true, "reflect.MakeMap": true, "reflect.MakeMapWithSize": true, "reflect.New": true}
+		containerType := func(t ast.Expr) bool {
+			switch t.(type) {
+			case *ast.ArrayType, *ast.MapType:
+				return true
+			}
+			return false
+		}
+		for _, fn := range []string{"bexpr.go", "evaluate.go", "filter.go", "options.go", "coerce.go"} {
+			f := parse(filepath.Join(root, fn))
+			for _, d := range f.Decls {
+				fdecl, ok := d.(*ast.FuncDecl)
+				if !ok || fdecl.Body == nil {
+					continue
+				}
+				name := fdecl.Name.Name
+				fresh := map[string]bool{}
+				spoiled := map[string]bool{}
+				var freshExpr func(e ast.Expr) bool
+				freshExpr = func(e ast.Expr) bool {
+					switch x := e.(type) {
+					case *ast.Ident:
+						return fresh[x.Name] && !spoiled[x.Name]
+					case *ast.ParenExpr:
+						return freshExpr(x.X)
+					case *ast.CompositeLit:
+						return true
+					case *ast.CallExpr:
+						ft := anyExprText(x.Fun)
+						if ft == "make" || makers[ft] {
+							return true
+						}
+						if (ft == "append" || ft == "reflect.Append" || ft == "reflect.AppendSlice") && len(x.Args) > 0 {
+							return freshExpr(x.Args[0])
+						}
+						if sel, ok := x.Fun.(*ast.SelectorExpr); ok && sel.Sel.Name == "MapKeys" && len(x.Args) == 0 {
+							return true
+						}
+						// a conversion of nil: []T(nil)
+						if len(x.Args) == 1 && containerType(x.Fun) {
+							if id, ok := x.Args[0].(*ast.Ident); ok && id.Name == "nil" {
+								return true
+							}
+						}
+						if pe, ok := x.Fun.(*ast.ParenExpr); ok && len(x.Args) == 1 && containerType(pe.X) {
+							if id, ok := x.Args[0].(*ast.Ident); ok && id.Name == "nil" {
+								return true
+							}
+						}
+					}
+					return false
+				}
+				// two passes so that the order of statements does not matter for := chains; an assignment from anything not fresh spoils
+				for pass := 0; pass < 3; pass++ {
+					ast.Inspect(fdecl.Body, func(n ast.Node) bool {
+						switch x := n.(type) {
+						case *ast.AssignStmt:
+							if len(x.Lhs) == len(x.Rhs) {
+								for i, l := range x.Lhs {
+									id, ok := l.(*ast.Ident)
+									if !ok {
+										continue
+									}
+									if freshExpr(x.Rhs[i]) {
+										fresh[id.Name] = true
+									} else if pass == 2 {
+										spoiled[id.Name] = true
+									}
+								}
+							} else {
+								for _, l := range x.Lhs {
+									if id, ok := l.(*ast.Ident); ok && pass == 2 {
+										spoiled[id.Name] = true
+									}
+								}
+							}
+						case *ast.DeclStmt:
+							if gd, ok := x.Decl.(*ast.GenDecl); ok && gd.Tok == token.VAR {
+								for _, sp := range gd.Specs {
+									if vs, ok := sp.(*ast.ValueSpec); ok && len(vs.Values) == 0 && vs.Type != nil {
+										switch vs.Type.(type) {
+										case *ast.StarExpr, *ast.ChanType, *ast.FuncType, *ast.InterfaceType:
+										default: // a nil slice or map, or a zero struct of the function's own
+											for _, n := range vs.Names {
+												fresh[n.Name] = true
+											}
+										}
+									}
+								}
+							}
+						}
+						return true
+					})
+				}
+				// parameters and range variables are never fresh
+				if fdecl.Type.Params != nil {
+					for _, p := range fdecl.Type.Params.List {
+						for _, n := range p.Names {
+							spoiled[n.Name] = true
+						}
+					}
+				}
+				if fdecl.Recv != nil {
+					for _, p := range fdecl.Recv.List {
+						for _, n := range p.Names {
+							spoiled[n.Name] = true
+						}
+					}
+				}
+				class := func(e ast.Expr) string {
+					if freshExpr(e) {
+						return "fresh"
+					}
+					return "shared"
+				}
+				ast.Inspect(fdecl.Body, func(n ast.Node) bool {
+					call, ok := n.(*ast.CallExpr)
+					if !ok {
+						return true
+					}
+					ft := anyExprText(call.Fun)
+					var target ast.Expr
+					switch {
+					case (ft == "append" || ft == "copy" || ft == "delete" || ft == "reflect.Append" || ft == "reflect.AppendSlice" || ft == "reflect.Copy" || strings.HasPrefix(ft, "sort.")) && len(call.Args) > 0:
+						target = call.Args[0]
+					default:
+						if sel, ok := call.Fun.(*ast.SelectorExpr); ok && mutMethod(sel.Sel.Name) {
+							if id, ok := sel.X.(*ast.Ident); !ok || (id.Name != "reflect" && id.Name != "sort" && id.Name != "strings" && id.Name != "fmt" && id.Name != "strconv") {
+								target = sel.X
+							}
+						}
+					}
+					if target != nil {
+						lines = append(lines, fmt.Sprintf("  (%s, %s, %s, %s, %s)", cs(fn), cs(name), cs(ft), cs(anyExprText(target)), cs(class(target))))
+					}
+					return true
+				})
+			}
+		}
+		pln(strings.Join(lines, ";\n"))
+		pln("].")
+
+	})
 	os.Stdout.Write(out.Bytes())
 }
